@@ -29,9 +29,11 @@ type Cfg struct {
 	CloseTimeoutMs int64    `json:"close_timeout_ms"`
 	Buf            int      `json:"buf"`
 	FailSaves      []int    `json:"fail_saves,omitempty"`
-	Location       string   `json:"location,omitempty"`    // session option Location (time zone of SendingTime); "" = the default (UTC)
+	Location       string   `json:"location,omitempty"`        // session option Location (time zone of SendingTime); "" = the default (UTC)
 	PartitionStore bool     `json:"partition_store,omitempty"` // the message store keeps messages per (Sender, Target) of the StorageID it is given
-	LogonCbNs      int64    `json:"logon_cb_ns,omitempty"` // acceptor (full rig): virtual time the application's logon callback takes
+	CustomLogon    bool     `json:"custom_logon,omitempty"`    // initiator (direct rig): the application sets its own logon request with SetLogonRequest
+	CallbackHB     int      `json:"callback_hb,omitempty"`     // acceptor (direct rig): the application's logon callback sets the heartbeat interval to this many seconds (0: leaves it)
+	LogonCbNs      int64    `json:"logon_cb_ns,omitempty"`     // acceptor (full rig): virtual time the application's logon callback takes
 	User           string   `json:"user,omitempty"`
 	Pass           string   `json:"pass,omitempty"`
 	Sender         string   `json:"sender,omitempty"` // initiator's identifiers
@@ -40,7 +42,7 @@ type Cfg struct {
 
 // Step is one action of a script.
 type Step struct {
-	Op    string   `json:"op"` // "in", "raw", "burst", "send", "logout", "stop", "advance", "handlerstop", "connclosed", "counter-fails", "wire-hold", "wire-release"
+	Op    string   `json:"op"`            // "in", "raw", "burst", "send", "logout", "stop", "advance", "handlerstop", "connclosed", "stopwitherror", "stopwithnil", "counter-fails", "counter-reads-fail", "counter-recovers", "wire-hold", "wire-release"
 	Raw   []byte   `json:"raw,omitempty"` // "raw": bytes handed to ServeIncoming as they are
 	In    *InMsg   `json:"in,omitempty"`
 	Burst []*InMsg `json:"burst,omitempty"`
@@ -133,11 +135,11 @@ func Approves(policy, user, pass string) bool {
 
 // Hooks lets a check observe or perturb a run.
 type Hooks struct {
-	Inner       *memory.Storage                                         // shared store (nil: fresh)
-	StoreDelay  func(op string, n int) time.Duration                    // virtual delay inside store calls
-	BeforeRun   func(h *simplefixgo.DefaultHandler, log *EventLog)       // register handlers before Session.Run
+	Inner       *memory.Storage                                                        // shared store (nil: fresh)
+	StoreDelay  func(op string, n int) time.Duration                                   // virtual delay inside store calls
+	BeforeRun   func(h *simplefixgo.DefaultHandler, log *EventLog)                     // register handlers before Session.Run
 	AfterRun    func(h *simplefixgo.DefaultHandler, s *session.Session, log *EventLog) // after Session.Run
-	AppMessage  func(step *Step) messages.Message                       // build the message of a "send" step
+	AppMessage  func(step *Step) messages.Message                                      // build the message of a "send" step
 	KeepSession func(s *session.Session, h *simplefixgo.DefaultHandler)
 	// OnWire makes the peer reactive: it is called (on the goroutine that
 	// drains Outgoing) for every message the session puts on the wire and
@@ -299,6 +301,9 @@ func runDirect(cfg Cfg, steps []Step, hooks *Hooks, maxHB int, tr *Trace) {
 			func(req *session.LogonSettings) error {
 				r.log.Add(Event{Kind: "logon-callback", Name: req.Username})
 				if Approves(cfg.Approve, req.Username, req.Password) {
+					if cfg.CallbackHB > 0 {
+						req.HeartBtInt = cfg.CallbackHB // the server's policy overrides what the client asked for
+					}
 					return nil
 				}
 				return fmt.Errorf("refused")
@@ -315,6 +320,20 @@ func runDirect(cfg Cfg, steps []Step, hooks *Hooks, maxHB int, tr *Trace) {
 		close(stopDrain)
 		<-drainDone
 		return
+	}
+	if cfg.CustomLogon && cfg.Role == "initiator" {
+		// the application supplies its own logon request (the optional SetLogonRequest hook): the same
+		// fields as the built-in one plus ResetSeqNumFlag=N
+		r.s.SetLogonRequest(func(s *session.Session) error {
+			msg := fixgen.Logon{}.Build().
+				SetFieldEncryptMethod(s.LogonSettings.EncryptMethod).
+				SetFieldHeartBtInt(s.LogonSettings.HeartBtInt).
+				SetFieldPassword(s.LogonSettings.Password).
+				SetFieldUsername(s.LogonSettings.Username).
+				SetFieldResetSeqNumFlag(false)
+			_ = s.Send(msg) // like the built-in request, which reports a failed send to the error callback only
+			return nil
+		})
 	}
 	if hooks.KeepSession != nil {
 		hooks.KeepSession(r.s, r.h)
@@ -407,6 +426,17 @@ func runDirect(cfg Cfg, steps []Step, hooks *Hooks, maxHB int, tr *Trace) {
 		case "in":
 			inject(st.In)
 		case "burst":
+			if st.Kind == "async" {
+				// the connection's inbound pump runs on a goroutine of its own (as in Acceptor.serve /
+				// Initiator.Serve): the step ends with the pump possibly still waiting in ServeIncoming
+				burst := st.Burst
+				go func() {
+					for _, m := range burst {
+						inject(m)
+					}
+				}()
+				break
+			}
 			for _, m := range st.Burst {
 				inject(m)
 			}
@@ -439,8 +469,25 @@ func runDirect(cfg Cfg, steps []Step, hooks *Hooks, maxHB int, tr *Trace) {
 		case "counter-fails":
 			// from now on the counter store refuses to record numbers
 			r.store.SetFailSets(true)
+		case "counter-reads-fail":
+			r.store.SetFailGets(true)
+		case "counter-recovers":
+			r.store.SetFailSets(false)
+			r.store.SetFailGets(false)
 		case "handlerstop":
 			r.h.Stop()
+		case "stopwitherror", "stopwithnil":
+			// the application ends the handler itself, with an error of its own or with none
+			r.mu.Lock()
+			ended := r.runEnded
+			r.mu.Unlock()
+			if !ended {
+				if st.Op == "stopwithnil" {
+					r.h.StopWithError(nil)
+				} else {
+					r.h.StopWithError(fmt.Errorf("the application gives up"))
+				}
+			}
 		case "connclosed":
 			// what Acceptor.serve / Initiator.Serve do when the connection's reader ends
 			r.mu.Lock()
